@@ -797,19 +797,36 @@ func callsProc(info *types.Info, e ast.Expr, proc *types.Func) bool {
 		return true
 	}
 	if lit, ok := ast.Unparen(call.Fun).(*ast.FuncLit); ok {
+		// the literal yields true only where proc() yielded true: every return is `return proc()`, `return
+		// false`, or `return true` on the true edge of a proc() test
 		all, n := true, 0
-		ast.Inspect(lit.Body, func(m ast.Node) bool {
-			if _, ok := m.(*ast.FuncLit); ok && m != lit {
-				return false
+		fg := newFlowGraph(info, lit.Body)
+		for _, rl := range fg.Returns() {
+			r := rl.Node.(*ast.ReturnStmt)
+			n++
+			if len(r.Results) != 1 {
+				all = false
+				continue
 			}
-			if r, ok := m.(*ast.ReturnStmt); ok {
-				n++
-				if len(r.Results) != 1 || !callsProc(info, r.Results[0], proc) {
-					all = false
+			if callsProc(info, r.Results[0], proc) {
+				continue
+			}
+			switch boolConst(info, r.Results[0]) {
+			case '0':
+				continue
+			case '1':
+				dom := false
+				for _, f := range fg.DominatingFacts(rl) {
+					if !f.Neg && callsProc(info, f.E, proc) {
+						dom = true
+					}
+				}
+				if dom {
+					continue
 				}
 			}
-			return true
-		})
+			all = false
+		}
 		return all && n > 0
 	}
 	return false
